@@ -7,6 +7,7 @@ import torch
 import torchphysics as tp
 
 from . import train_common as T
+from torchphysics.problem.spaces import Points
 
 PROP = "C19"
 LEVEL = "model_checking"
@@ -24,7 +25,7 @@ BOUNDS = {"quick": {"N": [3, 5], "intervals": [1, 2, 3]}, "thorough": {"N": [3, 
 ITEM_LIMIT = {"quick": 1200, "thorough": 3600}
 
 CONFIGS = [["pinn_static"], ["pinn_static", "boundary"], ["pinn_param", "param_penalty"], ["adaptive_w", "pinn_static"],
-           ["data2"], ["data2", "pinn_param"], ["pideeponet"], ["pideeponet", "pinn_static", "param_penalty"]]
+           ["data2"], ["data2", "pinn_param"], ["pideeponet"], ["pideeponet", "pinn_static", "param_penalty"], ["qres", "boundary"]]
 OPTS = ["sgd_momentum", "adam", "adam_steplr", "sgd_steplr_f2"]
 
 
@@ -33,7 +34,7 @@ def items(tier):
     for kinds in CONFIGS:
         for opt in OPTS:
             out.append({"name": "resume|%s|%s" % ("+".join(kinds), opt), "fam": "resume", "kinds": kinds, "opt": opt, "tier": tier, "cost": 5})
-    for kinds in (["pinn_static", "boundary"], ["pinn_param", "param_penalty"]):
+    for kinds in (["pinn_static", "boundary"], ["pinn_param", "param_penalty"], ["qres", "boundary"]):
         out.append({"name": "weights|%s" % "+".join(kinds), "fam": "weights", "kinds": kinds, "tier": tier, "cost": 3})
     return out
 
@@ -126,26 +127,32 @@ def weights(item, res, viol, tmp):
         shutil.rmtree(path, ignore_errors=True)
         os.makedirs(path)
         w0 = T.World()
-        before = {k: v.clone() for k, v in w0.model.state_dict().items()}
+        mdl = (lambda w_: w_.model3) if "qres" in kinds else (lambda w_: w_.model)
+        probe = Points(torch.linspace(0.05, 0.95, 7).reshape(-1, 1), T.X)
+        before = {k: v.clone() for k, v in mdl(w0).state_dict().items()}
+        with torch.no_grad():
+            out_before = mdl(w0)(probe).as_tensor.clone()
         try:
-            cb = tp.utils.WeightSaveCallback(w0.model, path, "net", check_interval=interval, save_initial_model=init, save_final_model=final)
-            snaps, osnaps, iters, named, handed, w = T.solver_run(kinds, wts, "adam", N, extra_callbacks=[cb], world=w0)
+            cb = tp.utils.WeightSaveCallback(mdl(w0), path, "net", check_interval=interval, save_initial_model=init, save_final_model=final)
+            snaps, osnaps, iters, named, handed, w = T.solver_run(kinds, wts, "adam", N, extra_callbacks=[cb], world=w0, snap_model=mdl(w0))
         except Exception as e:
             viol("C19|error|%s|weight-callback" % type(e).__name__, "%s raised %s: %s" % (cfg, type(e).__name__, str(e)[:120]))
             continue
         res["evals"] += 1
         res["transitions"] += N
-        after = {k: v.clone() for k, v in w.model.state_dict().items()}
+        after = {k: v.clone() for k, v in mdl(w).state_dict().items()}
+        with torch.no_grad():
+            out_after = mdl(w)(probe).as_tensor.clone()
         per_step = w.sd_snaps          # full state dicts of the model after every step
         ok = True
-        for fname, want, expect in (("net_init.pt", init, before), ("net_final.pt", final, after)):
+        for fname, want, expect, out_expect in (("net_init.pt", init, before, out_before), ("net_final.pt", final, after, out_after)):
             fp = os.path.join(path, fname)
             if os.path.exists(fp) != want:
                 viol("C19|weight-file-presence|%s" % fname, "%s: file %s %s" % (cfg, fname, "missing" if want else "written although switched off"))
                 ok = False
                 continue
             if want:
-                fresh = T.World().model
+                fresh = mdl(T.World(seed=999))            # identical architecture, ANOTHER random initialisation
                 try:
                     fresh.load_state_dict(torch.load(fp))
                 except Exception as e:
@@ -158,6 +165,13 @@ def weights(item, res, viol, tmp):
                             cfg, fname, "before" if "init" in fname else "after", k))
                         ok = False
                         break
+                # ... and the loaded model IS that model: same outputs (state that is not in the file would show here)
+                with torch.no_grad():
+                    got = fresh(probe).as_tensor
+                if ok and not torch.equal(got, out_expect):
+                    viol("C19|weight-file-outputs|%s" % fname, "%s: a freshly built model (other random initialisation) loaded from %s gives other outputs than the model %s training (max difference %.3g)" % (
+                        cfg, fname, "before" if "init" in fname else "after", float((got - out_expect).abs().max())))
+                    ok = False
         fp = os.path.join(path, "net_min_loss.pt")
         if interval > 0:
             if not os.path.exists(fp):
@@ -166,7 +180,7 @@ def weights(item, res, viol, tmp):
             else:
                 sd = torch.load(fp)
                 checked = [k for k in range(1, N) if (k - 1) % interval == 0]       # weights after step k are checked at the start of batch k
-                fresh = T.World().model
+                fresh = mdl(T.World(seed=999))
                 try:
                     fresh.load_state_dict(sd)          # strict: every key of a freshly built identical model must be in the file
                 except Exception as e:
